@@ -6,7 +6,7 @@ From YV Require Import Gen.PatConsts Pat.Syntax Pat.Sem Pat.Matcher Pat.MatcherP
   Pat.Modifiers Pat.ModifiersProofs Pat.MatchList Pat.MatchListProofs
   Pat.C01Check Pat.C01CheckProofs Pat.Base64 Pat.Base64Proofs Pat.Chain Pat.ChainProofs
   Pat.Atoms Pat.AtomsProofs Pat.Pipeline Pat.PipelineProofs Pat.PipelineB64Proofs
-  Pat.ChainRun Pat.ChainRunProofs.
+  Pat.ChainRun Pat.ChainRunProofs Pat.ChainCompleteProofs.
 Import ListNotations.
 
 (* ---- R |= S : the reference matcher ------------------------------------ *)
@@ -324,3 +324,50 @@ Theorem chain_misses_with_longest_end_per_start :
                       (scan_chain_abs false true false (split_at_large_gaps items) d).
 Proof. exact chain_complete_one_end_greedy_refuted. Qed.
 Print Assumptions chain_misses_with_longest_end_per_start.
+
+(* ---- completeness of the chain bookkeeping -------------------------------------- *)
+(* For a linear chain of pieces 0..n and ANY list of verified piece matches (events)
+   in which every event starts before the end of every later one (true for the order
+   by start offset and for the order by end offset; checked on the real events in K
+   by events_ordered_b): the start of every chain of events -- head, ..., last piece,
+   every gap within its bounds -- is reported.  Lazy and greedy, chain_length pruning
+   and the greedy reset included. *)
+Theorem chain_bookkeeping_complete_on_starts :
+  forall (pieces : list cpiece) (n : nat) (gp : nat -> cgap) (greedy : bool),
+  1 <= n -> length pieces = S n ->
+  (forall p, nth_error pieces 0 = Some p -> cp_link p = None) ->
+  (forall i p, nth_error pieces (S i) = Some p -> cp_link p = Some (i, gp i)) ->
+  (forall id p, nth_error pieces id = Some p -> cp_last p = Nat.eqb id n) ->
+  (forall id p, nth_error pieces id = Some p -> cp_greedy p = greedy) ->
+  forall evs, ordered evs -> (forall k s e, In (k, s, e) evs -> s <= e /\ k <= n) ->
+  forall s e s0, left gp evs n s e s0 -> In (N.of_nat s0) (starts (run_chain pieces evs)).
+Proof. exact run_chain_complete_starts. Qed.
+Print Assumptions chain_bookkeeping_complete_on_starts.
+
+Theorem chain_event_order_check : forall evs, events_ordered_b evs = true -> ordered evs.
+Proof. exact events_ordered_b_spec. Qed.
+Print Assumptions chain_event_order_check.
+
+(* end to end: fed with EVERY end of every piece (pieces that cannot match the empty
+   string), the chain of a split pattern reports the start of every occurrence -- so
+   the misses above are the piece matcher's (one end per start), not the bookkeeping's *)
+Theorem chain_complete_with_all_piece_ends : forall nc greedy c d,
+  snd c <> [] -> (forall r, In r (chain_res c) -> 1 <= min_len r) ->
+  chain_complete_starts nc c d (scan_chain_all_ends nc greedy false c d).
+Proof. exact chain_complete_all_ends. Qed.
+Print Assumptions chain_complete_with_all_piece_ends.
+
+(* Base64Wide / CustomBase64Wide: the statement left open before, proved for data
+   without '=' ... *)
+Theorem base64_pipeline_sound_wide : pipeline_base64_sound_wide_partial_statement.
+Proof. exact pipeline_base64_sound_wide_partial. Qed.
+Print Assumptions base64_pipeline_sound_wide.
+
+(* ... and REFUTED without that side condition (replayed on the implementation: known
+   finding C01:scan:base64wide-pad-inside-window) *)
+Theorem base64_wide_pad_inside_window_accepted :
+  exists lit d p pos alpha s e, p <= 2 /\ lit <> [] /\
+    verify_base64 lit d p pos alpha true = Some (s, e) /\
+    sp_match (mkSP (KBase64 lit p alpha true) (mkF false false false false)) (0, 0)%N d s = None.
+Proof. exact pipeline_base64_sound_wide_refuted. Qed.
+Print Assumptions base64_wide_pad_inside_window_accepted.
